@@ -538,7 +538,12 @@ fn $name<C: Ord + Clone + Default + std::fmt::Debug + 'static>(case: &BinCase, c
                 continue;
             }
             // rounding of the score itself (|s| up to 1e3) moves the probability by <= |s| * 2^-50 * p(1-p)
-            if (p - pref).abs() > ptol {
+            // the subject's own logit x.w + b carries a rounding error of a few eps * (sum_j |x_j w_j| + |b|) (large terms
+            // that cancel); it reaches the probability through the slope p (1 - p) of the sigmoid
+            let eps_f = if is32 { 1.2e-7 } else { 2.3e-16 };
+            let opmag: f64 = qi.iter().zip(&w).map(|(a, c)| (a * c).abs()).sum::<f64>() + b.abs();
+            let slope = (p * (1.0 - p)).max(pref * (1.0 - pref));
+            if (p - pref).abs() > ptol + slope * 8.0 * eps_f * opmag {
                 viols.push(Violation::new(
                     "logistic.predict_probabilities.wrong_value",
                     format!("query {:?}: probability {} but sigm(x.w + b) = {}", qi, p, pref),
